@@ -80,6 +80,20 @@ steps), through a second entry point (exported fortune constructors), or at a ma
 (whole 400-year cycles, 23,000 months) was invisible. Section 0.1 ("Round 7") lists what was added; after it all
 18 are detected, and all 101 earlier seeds still are.
 
+Round 8 (20 changes; the agents were given a description of everything the harness does by then and asked what it
+could still be holding constant) produced mostly *process-level* faults: eight bounded caches of 64 to 16,384 year
+tables whose eviction path is wrong (stale index entries, recycled objects, slices handed over), a direct-mapped
+week-index cache with a truncated tag, a term table shared by year mod 128, a festival index sized by the first
+caller of the process, a memo whose key collides with the "not found" sentinel of an unrecognised name, a one-entry
+memo with a packed key, an accessor that filters the cached year table in place, a stringer that overwrites an
+exported table, a dependence on the process time zone, plus three ordinary gaps (base-year residues, an append
+fast path in `Fix`, the chart convention leaking into the fortune start). 3 were caught as-is or by what had just been
+added; the others led to the long-history, jump, first-use and junk shards of C09, the `pairs` shard of C04, the
+time-zone rotation of the workers and the smaller additions listed in section 0.1 ("Round 8"). The cache faults do
+violate the property they were written for, but only in a process that has computed thousands of distinct years,
+which no year-sharded sweep does; they are detected by C09 (whose statement — results do not depend on call
+history — they violate first), and `seeds_all.sh` records that mapping.
+
 ### 10.2 Hand-written overlay mutants (`selftest.py`, results in `selftest.json`)
 
 %d mutants (1–3 per property, listed with their intent in `selftest.py`) are applied through the build
